@@ -18,11 +18,19 @@ def run(tier, seed):
     try:
         for t in range(4):
             pools = ('[0, 6, 8, 11]', '[1, 7, 10]') if quick else ('list(range(12))', 'list(range(12))')
-            h = Harness(ck, 'c09_json_t%d' % t, src.replace('__T__', str(t)).replace('__BP__', pools[0]).replace('__CP__', pools[1])); hs.append(h)
+            s = src.replace('__T__', str(t)).replace('__BP__', pools[0]).replace('__CP__', pools[1])
+            if quick:     # second constant from 3 of the 8 pool values
+                s = s.replace('''    post: _
+    \"\"\"
+    return concrete(_model,''', '''    pre: sel(j0, j1, j2) in (0, 3, 6)
+    post: _
+    \"\"\"
+    return concrete(_model,''')
+            h = Harness(ck, 'c09_json_t%d' % t, s); hs.append(h)
             only = ['expr_fixed_point_ok'] + (['model_ok'] if t < 3 else ['text_constant_ok', 'constant_ok'])
             batch.add(h, T, only=only, bounds={
                 'expr_fixed_point_ok': 'five formula shapes (chains, sign / percent, IF with an empty argument, array literal, text with doubled quotes) x operator triples (first operator index = %d mod 4, others %s): exported text parses back to itself' % (t, 'from 4 x 3 representatives' if quick else 'all 12 x 12'),
-                'model_ok': 'template %d x 8 x 8 constants x 8 sheet names (hyphen, blank, apostrophe, leading digit, exclamation mark, second workbook): identical values, identical second and third export' % t,
+                'model_ok': 'template %d x 8 x %s constants x 8 sheet names (hyphen, blank, apostrophe, leading digit, exclamation mark, second workbook): identical values, identical second and third export' % (t, '3' if quick else '8'),
                 'text_constant_ok': 'every text of length <= 3 over {= " a 1 blank #}, and 7 prefixes (error literals, a reference, a logical) followed by <= 1 such character, held as a text cell: values and exports survive two round trips',
                 'constant_ok': '16 typed constants (numbers, logicals, text, blank, errors, text looking like other types)'})
         batch.run()
